@@ -257,12 +257,32 @@ def handle(line: str) -> str:
             else:
                 P = SQLParser
             fn = getattr(P, "parse_" + entry)
+            import signal
+
+            def _alarm(signum, frame):
+                raise TimeoutError("request timed out")
+            signal.signal(signal.SIGALRM, _alarm)
+            signal.alarm(int(os.environ.get("VERIF_REQ_TIMEOUT", "30")))
+            import inspect
+            extra = {}
+            for pn, pp in inspect.signature(fn).parameters.items():
+                if pn in ("scanner_or_string", "sql_type") or pp.default is not inspect.Parameter.empty:
+                    continue
+                if pn == "with_clause":
+                    from metasequoia_sql.core import node as _cn
+                    extra[pn] = _cn.ASTWithClause.empty()
+                else:
+                    return "BAD-REQUEST unknown required parameter " + pn
             try:
-                v = fn(text, sql_type=SQLType[dialect])
+                v = fn(text, sql_type=SQLType[dialect], **extra)
             except RecursionError:
                 return "ERR Recursion"
+            except TimeoutError:
+                return "ERR Timeout"
             except Exception as e:  # noqa
                 return "ERR " + err_name(e)
+            finally:
+                signal.alarm(0)
             return "OK " + pydump.dump(v)
         except Exception as e:  # noqa
             return "BAD-REQUEST " + repr(e)
